@@ -507,6 +507,10 @@ func genRange(r *core.Rand, n int) string {
 	if r.Chance(1, 3) {
 		k = r.Range(2, 4)
 	}
+	if r.Chance(1, 25) { // long lists: counts around powers of two up to a few hundred
+		ks := []int{15, 16, 17, 31, 32, 33, 63, 64, 65, 100, 127, 128, 129, 257, 300} // any limit on the number of ranges is a deviation
+		k = ks[r.Intn(len(ks))]
+	}
 	var specs []string
 	for i := 0; i < k; i++ {
 		var s string
